@@ -312,7 +312,7 @@ class AsynchronousDeferredRunTest(_DeferredRunTest):
         asynchronous Deferreds.  As such, we take the responsibility for
         running the cleanups, rather than letting TestCase do it.
         """
-        last_exception = None
+        exceptions = []
         while self.case._cleanups:
             f, args, kwargs = self.case._cleanups.pop()
             d = defer.maybeDeferred(f, *args, **kwargs)
@@ -326,8 +326,8 @@ class AsynchronousDeferredRunTest(_DeferredRunTest):
                 # the outcome has been reported.
                 exc_info = sys.exc_info()
                 self.case._report_traceback(exc_info)
-                last_exception = exc_info[1]
-        return last_exception
+                exceptions.append(exc_info[1])
+        return exceptions
 
     def _make_spinner(self):
         """Make the `Spinner` to be used to run the tests."""
@@ -351,9 +351,11 @@ class AsynchronousDeferredRunTest(_DeferredRunTest):
             """Run the cleanups."""
             d = self._run_cleanups()
 
-            def clean_up_done(result):
-                if result is not None:
-                    self._exceptions.append(result)
+            def clean_up_done(exceptions):
+                if exceptions:
+                    # Every one of them takes part in choosing the outcome, so
+                    # that e.g. an interrupt is not lost behind a later error.
+                    self._exceptions.extend(exceptions)
                     fails.append(None)
 
             return d.addCallback(clean_up_done)
